@@ -322,6 +322,16 @@ def main(argv):
             bad = [a for a in axs if a not in ALLOWED_AXIOMS]
             if bad:
                 broken.append("audit: theorem %s depends on %s" % (name, bad))
+    leanchecker = "not run (quick tier)"
+    if tier == "thorough" and binfo["proof_ok"]:
+        try:
+            lcode, lout = run(["lake", "env", "leanchecker"] + list(mod.LEAN_MODULES), cwd=common.LEAN_DIR,
+                              timeout=1800)
+            leanchecker = "ok" if lcode == 0 else "REJECTED: " + lout[-300:]
+            if lcode != 0:
+                broken.append("audit: leanchecker rejected the compiled modules: " + lout[-200:])
+        except Exception as exc:   # tool problem, not a verdict
+            leanchecker = "unavailable: %r" % (exc,)
     hits = forbidden_tokens(mod.LEAN_MODULES)
     for hit in hits:
         broken.append("audit: forbidden token " + hit)
@@ -447,6 +457,7 @@ def main(argv):
                            "over every theorem of those modules>" % " ".join(mod.LEAN_MODULES),
             "trusted_base": TRUSTED_BASE + list(getattr(mod, "TRUSTED_EXTRA", [])),
             "theorems": {k: v for k, v in sorted(theorems.items())},
+            "leanchecker": leanchecker,
             "evaluations": res.evaluations,
             "distinct_nontrivial": len(res.keys),
             "rule": getattr(mod, "RULE", "seeded boundary-biased generators; a case counts once "
